@@ -159,3 +159,23 @@ def register(w):
 
     w.add_contract(Contract(f"{MPS}:<function-dedup-key>", kind="custom", custom=custom, props=["C07"], witnesses=["C07_sharing_family", "C03_function_identifiers_unique", "D29"]))
     w.trust("C07: hash(bytes)/sha1 are injective on the values met; repr(treedef) separates static configuration; id(callee) identifies a live instance (INSTANCE_MAP2 holds weak references): stated assumptions, not checked")
+
+    # ---- bounded stand-ins (never counted as proved): call sites that must not share a definition, on the real export
+    def bounded_sharing(world, c, out):
+        import time
+        from pyvc.run import run_witness
+        t0 = time.time()
+        for oname, wn, bound in (("call_sites_whose_symbolic_input_shapes_correlate_differently_get_their_own_definition", "C04_function_symbol_binding_family",
+                                  "2 @onnx_function targets x 3 orders of two call sites with inputs [('T',3),('S',3)], 5 bindings of (T,S)"),
+                                 ("call_sites_differing_in_a_keyword_argument_get_their_own_definition", "C19_function_target_kwargs_family",
+                                  "19 call forms of 3 functions and 1 module, incl. f(x, k=None) next to f(x) in one program")):
+            holds, detail = run_witness(wn, timeout=1200)
+            d = {"oid": f"{MPS}:FunctionPlugin._lower_and_call#bounded:{oname}", "kind": "bounded", "status": "discharged" if holds else ("refuted" if holds is False else "unknown"),
+                 "backend": "enumerated", "time": time.time() - t0, "instances": 1, "trivial": 0, "bounded": bound,
+                 "note": f"the input-signature part of the key and the keyword plumbing of the substitute are not under contract; the real export is compared with JAX; {detail}"[:500]}
+            if holds is False:
+                d.update(args={"witness": wn}, replay={"reproduced": True, "detail": detail}, formula="", model=detail)
+            out["obls"].append(d)
+        out["paths"], out["time"] = 1, time.time() - t0
+        return out
+    w.add_contract(Contract(f"{MPS}:<bounded-sharing>", kind="custom", custom=bounded_sharing, props=["C07"], witnesses=["C04_function_symbol_binding_family", "C19_function_target_kwargs_family"]))
